@@ -5,6 +5,7 @@ use crate::world::{Ev, Rf};
 
 pub mod c06;
 pub mod c08;
+pub mod c09;
 pub mod c10;
 pub mod c12;
 
